@@ -442,7 +442,7 @@ def units_for(prop):
         if "//@include common.vrs" in txt:
             txt += open(os.path.join(CONTRACTS, "common.vrs")).read()
         tagged = any(prop in (m.group(2).split()) for m in (TAG_RE.search(l) for l in txt.split("\n")) if m)
-        if tagged or (prop in OVERFLOW_PROPS and "//@paste" in txt and fn not in ("adaptors.vrs", "wrappers.vrs")):
+        if tagged or (prop in OVERFLOW_PROPS and "//@paste" in txt and fn not in ("adaptors.vrs", "wrappers.vrs", "foreach.vrs")):
             out.append(fn[:-4])
     return out
 
